@@ -113,6 +113,12 @@ func cmdCheck(args []string) {
 	if err != nil {
 		fail("load: " + err.Error())
 	}
+	w.knownObligations = map[string]bool{}
+	if kfs, _ := loadKnownFindings(filepath.Join(*verif, "known-findings.txt")); kfs != nil {
+		for _, k := range kfs {
+			w.knownObligations[k.Obligation] = true
+		}
+	}
 	items := w.selectItems(*prop, "")
 	if len(items) == 0 {
 		fail("no contract items for property " + *prop + " (contract files missing?)")
